@@ -64,15 +64,29 @@ def run(chk, repo):
     forms = {}
     for f, name, want in ((g2gene, 'g2gene', {1: X - S, -1: E - 1 - X}), (gene2g, 'gene2g', {1: S + X, -1: E - 1 - X})):
         res = run_both(f.node)
+        from sa import sem as _sem11
+        _tabs = _sem11.module_tables(f.module)
+
+        def _spec(sv, f=f, _tabs=_tabs):
+            return _sem11.specialise(f.node, lambda t, sv=sv: sv if strand_like(t) else None, tables=_tabs)
         for s in (1, -1):
             rets = [p for p in res[s] if p.end == 'return']
+            if not (len(rets) >= 1 and all(isinstance(p.ret, Aff) and p.ret == want[s] for p in rets)):
+                # dispatch through a table / lambdas: specialise the function on the strand (E10: exact restriction of the function to this
+                # strand) and interpret that
+                it_ = Interp(s, call_models={}, canon=gene_canon, record=('FeatureLocation',), is_strand=strand_like)
+                res[s] = it_.run_function(_spec(s), None)
+                rets = [p for p in res[s] if p.end == 'return']
             ok = len(rets) >= 1 and all(isinstance(p.ret, Aff) and p.ret == want[s] for p in rets)
             forms[(name, s)] = rets[0].ret if rets else None
             chk.ob('C11.a', f"{f.name} strand {s:+d} returns {want[s]!r}", f.where, ok,
                    f"{f.name} on strand {s:+d} returns {[repr(p.ret) for p in rets]}, definitional form is {want[s]!r}",
                    key=f"{f.qual}::form::{s:+d}", fn=f.qual)
+        # unstranded: with the strand replaced by 0 and folded, no return is left and the function ends in a raise
+        un = _spec(0)
         last = f.node.body[-1]
-        chk.ob('C11.a', f"{f.name} raises for unstranded genes", repo.loc(f, last), isinstance(last, ast.Raise),
+        chk.ob('C11.a', f"{f.name} raises for unstranded genes", repo.loc(f, last),
+               isinstance(un.body[-1], ast.Raise) and not any(isinstance(x, ast.Return) for x in ast.walk(un)),
                f"{f.name} does not end in a raise for unstranded genes", key=f"{f.qual}::unstranded", fn=f.qual)
     for s in (1, -1):
         a, b = forms.get(('g2gene', s)), forms.get(('gene2g', s))
